@@ -28,7 +28,9 @@ RULE = ('Hypothesis draws (configuration out of %d incl. sparse_super2 with 0/1/
 
 req = st.tuples(st.sampled_from(['abs', 'abs', 'abs', 'M', 'b', 's', 'min+']), st.integers(0, 400), st.integers(-4, 40), st.sampled_from(['', '', '-f', '-p', '-f -p']))
 def strategy(env):
-    return st.fixed_dictionaries(dict(cfg=st.sampled_from(CFG_NAMES), recipe=st.integers(0, len(hyp.RECIPES) - 1), extras=st.lists(st.tuples(st.integers(0, fsgen.NKINDS - 1), st.integers(0, 2000), st.integers(0, 6000)), max_size=3),
+    # inode renumbering needs small inode tables spread over several groups: those configurations and the inode-filler population are drawn more often
+    weighted = CFG_NAMES + ['ext4-1k-manygroups', 'ext4-1k-fewinodes-3groups', 'ext2-1k-fewinodes-4groups'] * 4
+    return st.fixed_dictionaries(dict(cfg=st.sampled_from(weighted), recipe=st.integers(0, len(hyp.RECIPES) - 1), extras=st.lists(st.tuples(st.sampled_from(list(range(fsgen.NKINDS)) + [7, 7, 7]), st.integers(0, 2000), st.integers(0, 6000)), max_size=3),
                                       reqs=st.lists(req, min_size=1, max_size=3), san=st.booleans(), fill=st.integers(0, 3)))
 
 def envinit(widx):
